@@ -18,9 +18,11 @@ func init() {
 	}
 	register(&Rule{ID: "C05.atomic", Floor: 25,
 		Text: "failure atomicity: in every exported operation of MemFS and OrefaFS except RemoveAll (documented to remove what it can), no instruction that changes the tree (entry-map update, node release, truncate, store to a node attribute) can be followed by a return that reports an error; check-and-set helpers (setMode, setModTime) change the node only when they return true",
+		Also: []string{"C01"},
 		Run:  c05Atomic})
 	register(&Rule{ID: "C05.nlink", Floor: 8,
 		Text: "the link counter moves with the directory entries: Link increments the counter of the node it inserts, inside that node's critical section; Remove / RemoveAll release (decrement) every node whose entry they remove, on every path and for every kind of node; Rename releases the node it displaces at the destination",
+		Also: []string{"C01"},
 		Run:  c05Nlink})
 	register(&Rule{ID: "C05.index", Floor: 5,
 		Text: "OrefaFS keeps the per-directory children maps and the path index in step: every function that inserts into (removes from) one also inserts into (removes from) the other",
